@@ -65,6 +65,7 @@ type Contract struct {
 	Cases        *CaseSplit
 	FnDecreases  *Clause
 	Partial      bool
+	Reads        []string
 	ExitHints    []Clause
 	IsLemma      bool
 	LemmaPTypes  []ast.Expr
@@ -290,7 +291,7 @@ var clauseKeywords = map[string]bool{
 	"ensures": true, "assigns": true, "loop": true, "invariant": true, "decreases": true,
 	"func": true, "spec": true, "axiom": true, "instantiate": true, "nosafety": true,
 	"onlysafety": true, "unfold": true, "assert": true, "cases": true, "partial": true,
-	"lemma": true, "induction": true, "uses": true, "hint": true,
+	"lemma": true, "induction": true, "uses": true, "hint": true, "reads": true,
 }
 
 var lemmaRe = regexp.MustCompile(`^([A-Za-z_][A-Za-z0-9_]*)\s*\(([^)]*)\)$`)
@@ -420,6 +421,8 @@ func (e *Engine) parseContracts(body, pkgPath, file string, line0 int) error {
 				cur.Trusted = true
 			case "pure":
 				cur.Pure = true
+			case "reads":
+				cur.Reads = append(cur.Reads, strings.Fields(strings.ReplaceAll(rc.text, ",", " "))...)
 			case "nosafety":
 				cur.NoSafety = true
 			case "partial":
